@@ -50,6 +50,10 @@ Return == /\ pc = "run" /\ (faulted \/ Len(log) = Len(Ops[op]))
 Next == Call \/ CleanupCall \/ Return
 Spec == Init /\ [][Next]_vars
 
+(* every operation returns - with or without a fault, however the cleanup goes (the process keeps running and gets an answer) *)
+FairSpec == Spec /\ WF_vars(Next)
+Terminates == <>(pc = "done")
+
 (* ---- C15 ---- *)
 NeverSuccessAfterFault == (pc = "done" /\ faulted) => result \in {"error", "nil"}
 FaultFreeSucceeds      == (pc = "done" /\ ~faulted) => result = "ok"
